@@ -126,3 +126,21 @@ def first_diff(a, b, path=()):
     if a != b:
         return path + ("val", a, b)
     return None
+
+
+def spell_features(names, key):
+    """The same Wishbone feature set in one of the spellings the API accepts (any iterable of strings or of
+    Feature members, one-shot iterators included): the container must not matter to any component."""
+    from amaranth_soc import wishbone
+    names = list(names)
+    v = key % 7
+    if v == 0:
+        return set(names)
+    if v == 1:
+        return list(names)
+    if v == 2:
+        return frozenset(names)
+    if v == 3:
+        return iter(tuple(names))
+    ms = [wishbone.Feature(f) for f in names]
+    return [set(ms), frozenset(ms), (m for m in ms)][v - 4]
